@@ -40,6 +40,13 @@ type FGC struct {
 	Params bool   `json:"params"`
 }
 
+// FSelReq is one matchExpressions requirement of allowedRoutes.namespaces.selector
+type FSelReq struct {
+	Key    string   `json:"key"`
+	Op     string   `json:"op"`
+	Values []string `json:"values"`
+}
+
 type FKind struct {
 	Group string `json:"group"`
 	Kind  string `json:"kind"`
@@ -54,19 +61,20 @@ type FCertRef struct {
 }
 
 type FListener struct {
-	Name     string `json:"name"`
-	Port     int32  `json:"port"`
-	Proto    string `json:"proto"`
-	HasHost  bool   `json:"hasHost"`
-	Host     string `json:"host"`
-	HasTLS   bool   `json:"hasTls"`
-	TLSMode  string `json:"tlsMode"` // "" = nil
-	TLSOpts  int    `json:"tlsOpts"`
+	Name     string            `json:"name"`
+	Port     int32             `json:"port"`
+	Proto    string            `json:"proto"`
+	HasHost  bool              `json:"hasHost"`
+	Host     string            `json:"host"`
+	HasTLS   bool              `json:"hasTls"`
+	TLSMode  string            `json:"tlsMode"` // "" = nil
+	TLSOpts  int               `json:"tlsOpts"`
 	Certs    []FCertRef        `json:"certs"`
 	From     string            `json:"from"` // "" = allowedRoutes.namespaces absent
 	HasSel   bool              `json:"hasSel"`
 	SelMatch map[string]string `json:"selMatch"`
 	SelExprs int               `json:"selExprs"`
+	SelReqs  []FSelReq         `json:"selReqs"`
 	HasKinds bool              `json:"hasKinds"`
 	Kinds    []FKind           `json:"kinds"`
 }
@@ -371,7 +379,7 @@ func Flatten(objs []client.Object, opts p.Options) Flat {
 				Addresses: len(t.Spec.Addresses), Listeners: []FListener{}}
 			for _, l := range t.Spec.Listeners {
 				fl := FListener{Name: string(l.Name), Port: int32(l.Port), Proto: string(l.Protocol),
-					HasHost: l.Hostname != nil, Host: str(l.Hostname), Certs: []FCertRef{}, SelMatch: map[string]string{}, Kinds: []FKind{}}
+					HasHost: l.Hostname != nil, Host: str(l.Hostname), Certs: []FCertRef{}, SelMatch: map[string]string{}, Kinds: []FKind{}, SelReqs: []FSelReq{}}
 				if l.TLS != nil {
 					fl.HasTLS = true
 					fl.TLSMode = str(l.TLS.Mode)
@@ -389,6 +397,10 @@ func Flatten(objs []client.Object, opts p.Options) Flat {
 								fl.SelMatch[k] = v
 							}
 							fl.SelExprs = len(ar.Namespaces.Selector.MatchExpressions)
+							for _, e := range ar.Namespaces.Selector.MatchExpressions {
+								vs := append([]string{}, e.Values...)
+								fl.SelReqs = append(fl.SelReqs, FSelReq{Key: e.Key, Op: string(e.Operator), Values: vs})
+							}
 						}
 					}
 					if ar.Kinds != nil {
